@@ -95,7 +95,8 @@ def gating_oracle(res, summary):
             state.clear()
             for lf in seqleaves:
                 drv = spec_driver(lf)
-                en = 1 if (drv is None or drv.enable is None) else drv.enable.get()
+                enw = None if drv is None else getattr(drv, '_verif_enable', drv.enable)     # the enable wire the design asked for
+                en = 1 if enw is None else enw.get()
                 attrs = {k: (list(v) if isinstance(v, list) else v) for k, v in vars(lf).items()
                          if isinstance(v, (int, list)) and not isinstance(v, bool) and k not in ('n',)}
                 outs = {p.name: p.wire.get() for p in lf.outPorts}
@@ -124,6 +125,73 @@ def gating_oracle(res, summary):
                                  dict(summary, leaf=lf.name, pre_inputs=ins, pre_value=attrs['value'], q_after=nouts['q'], expected=val))
         return before, after
     return mk
+
+
+def late_driver_stream(res, rng, n):
+    """the clock driver of a container is attached, replaced or removed AFTER the simulator was first obtained (no leaf added or removed),
+    getSimulator() is called again and the run continues: from then on every sequential leaf must follow the driver that is NOW its
+    nearest ancestor's (hold when that driver's enable was 0 before the edge, step like an ungated block otherwise)"""
+    import py4hw, contextlib, io
+    for i in range(n):
+        r = rng.fork(i)
+        plan = G.random_plan(r, r.randint(4, 16), seq_ratio=(2, 3), wmax=r.choice([1, 2, 4]), n_domains=r.randint(1, 3),
+                             kinds=['And2', 'Not', 'Buf', 'Mux2', 'Constant', 'Reg', 'Sequence', 'AddCarryIn'])
+        try:
+            with contextlib.redirect_stdout(io.StringIO()):
+                sysobj, ins, W, leaves = G.build(plan)
+                sim = sysobj.getSimulator()
+        except Exception as e:
+            res.hist('build_errors', str(e)[:50])
+            continue
+        conts = []
+        def walk(o):
+            for c in o.children.values():
+                if type(c).__name__ == 'Logic':
+                    conts.append(c)
+                    walk(c)
+        walk(sysobj)
+        if not conts:
+            continue
+        seq = [lf for lf in sysobj.allLeaves() if lf.isClockable()]
+        log = []
+        summary = dict(plan=G.plan_summary(plan), history=log)
+        before, after = gating_oracle(res, summary)(sysobj, seq)
+        one_bit = [w for w in D.all_wires(sysobj) if w.getWidth() == 1]
+
+        def run(k):
+            for _ in range(k):
+                for w in ins:
+                    v = r.bits(w.getWidth())
+                    w.put(v)
+                    log.append(('poke', w.name, v))
+                sim.propagateAll()
+                before()
+                sim.clk(1)
+                after()
+                log.append(('clk', 1))
+        n0 = len(res.failures) + len(res.known_hits)
+        try:
+            with contextlib.redirect_stdout(io.StringIO()):
+                run(r.randint(1, 4))
+                for _ in range(r.randint(1, 2)):
+                    c = r.choice(conts)
+                    how = r.choice(['attach', 'attach', 'remove'])
+                    if how == 'attach' and one_bit:
+                        en = r.choice(one_bit)
+                        c.clockDriver = py4hw.ClockDriver(f'late{len(log)}', base=sysobj.clockDriver, enable=en)
+                        c.clockDriver._verif_enable = en
+                        log.append(('set-driver', c.name, 'gated by ' + en.name))
+                    else:
+                        c.clockDriver = None
+                        log.append(('remove-driver', c.name))
+                    sim = sysobj.getSimulator()
+                    log.append(('getSimulator',))
+                    run(r.randint(2, 6))
+        except Exception as e:
+            res.hist('simulation_errors', f'late-driver:{type(e).__name__}:{str(e)[:40]}')
+        res.count(('late-driver', i, str(log)[:200]), nontrivial=True, hist={'late_driver_changes': sum(1 for x in log if x[0] in ('set-driver', 'remove-driver'))})
+        if len(res.failures) + len(res.known_hits) > n0:
+            break
 
 
 def main(res, tier, rng, replay):
@@ -208,6 +276,7 @@ def main(res, tier, rng, replay):
         nb.run()
     except ToolFailure as e:
         res.broken.append(('correspondence', 'net-sim-domains', str(e)[:300]))
+    late_driver_stream(res, rng.fork('late-driver'), 40 if tier == 'quick' else 800)
     res.cov['rule'] = ('hierarchy stream: random container trees with drivers at random levels (incl. none at the root), real '
                        'getObjectClockDriver and Simulator.clockDrivers grouping vs the Lean model and vs the nearest-ancestor rule; '
                        'designs: seeded multi-domain netlists (gated drivers whose enables are arbitrary design wires incl. registers inside '
